@@ -21,17 +21,17 @@ theorem freqPlan_ok {sel : Sel} {fft n : Nat} {ps : List Nat} {B nb : Nat}
     · simp at h
     · rename_i Bi hB
       split at h
-      · cases h
-      · rename_i hB0
+      · simp at h
+      · rename_i ps' hps
         split at h
         · cases h
-        · rename_i hmod
+        · rename_i hB0
           split at h
           · cases h
-          · rename_i hnb
+          · rename_i hmod
             split at h
-            · simp at h
-            · rename_i ps' hps
+            · cases h
+            · rename_i hnb
               split at h
               · cases h
               · rename_i hlen
@@ -105,7 +105,7 @@ theorem tdl_corruptFreq_siso (proc : Proc α) (fftK : Fft α) (c : Tdl α) (hant
   refine ⟨last, ?_, hlast⟩
   unfold Tdl.corruptFreq
   simp only [numSymbols, tab_length, hplan, bind, Except.bind, pure, Except.pure, hcat, hant,
-    blockEndPos_eq _ _ hfft]
+    blockEndPos_eq _ _ hfft, signalOk_siso c hant, Bool.not_true, Bool.false_eq_true, if_false]
   rw [blockIRs_eq _ _ _ hfft, freqSiso_tab]
   simp only [Tdl.afterFx, hant]
   congr 3
@@ -130,7 +130,8 @@ theorem tdl_corruptFreq_mimo (proc : Proc α) (fftK : Fft α) (c : Tdl α) (nr n
   refine ⟨last, ?_, hlast⟩
   unfold Tdl.corruptFreq
   simp only [numSymbols_tab _ _ _ hIn, tab_length, hplan, bind, Except.bind, pure, Except.pure, hcat, hant,
-    blockEndPos_eq _ _ hfft, Nat.lt_irrefl, if_false]
+    blockEndPos_eq _ _ hfft, signalOk_mimo' c nr nt hant, Bool.not_true, Bool.false_eq_true, ne_eq,
+    not_true_eq_false, if_false]
   rw [blockIRs_eq _ _ _ hfft, freqMimo_tab]
   simp only [Tdl.afterFx, hant]
   congr 2
